@@ -11,8 +11,21 @@ of pipe `p` = the length the driver pads to (1..32), undisturbed air (`faults = 
 passes `write()`'s check).  All theorems hold for every payload content and length, both buffer
 kinds, every `force_retry : Nat`, `ask_no_ack` / `send_only` on or off, every channel, rate, CRC,
 address width and pipe that satisfy `Compatible` — these are universally quantified, not enumerated.
+
+Added in round 2 (helper files `NrfProofs/C01List.lean`, `C01Stream.lean`, `C01StreamDrv.lean`):
+* `C01_send_list` — `send([b₁ … bₙ])` (list / tuple input): results AND delivery, order, exactly once,
+  for every list that fits the receiver's three-level RX FIFO (`pend.length + n ≤ 3`).
+* `C01_stream` — `k ≤ 3` × `write(…, write_only=True)` into the TX FIFO, then CE high and one
+  `update()`: all `k` payloads delivered in order, exactly once (`StreamInv`: the invariant of the
+  air between two cycles of one `tryTransmit`).
+Both need `AcksWork` (if the transmitter waits for acknowledgements, it can hear them and the
+receiver auto-acknowledges the pipe): otherwise the first cycle ends in MAX_RT — `send()` returns
+`False` although the payload WAS delivered, and a stream stops after its first payload.
 -/
 import NrfProofs.C01Write
+import NrfProofs.C01List
+import NrfProofs.C01StreamDrv
+import NrfProofs.C02Calls
 import NrfProps.C10
 
 namespace Nrf.Props.C01
@@ -66,6 +79,10 @@ example : Compatible exState 1 0 false ∧ SendPre exState [1, 2, 3] false ∧ (
     fun _ => by decide, rfl⟩,
    ⟨by decide, by decide, by decide, Or.inr rfl, fun _ => Or.inl rfl, fun h => absurd h (by decide), fun _ => by decide⟩,
    by decide, by decide⟩
+
+/-- … and the remaining hypothesis of `C01_delivery` on the same state -/
+example : AckEnv exState.rad (exState.sendPacket false [1, 2, 3]) exState :=
+  ackEnv_of_eval _ _ _ (fun h => absurd h (by decide)) (by decide +kernel)
 
 example : expectedPayload false 5 [1, 2, 3] = [1, 2, 3, 0, 0] ∧ expectedPayload false 2 [1, 2, 3] = [1, 2] ∧
     expectedPayload true 5 [1, 2, 3] = [1, 2, 3] := by decide
@@ -257,6 +274,174 @@ example : LinkInv { config := 0x0E } 1 0 false exLink [] :=
 example : orderSpec false 32 [] [.send [1] false false 0 false, .send [2] true true 3 true, .read, .read, .read]
     = some [some (expectedPayload false 32 [1]), some (expectedPayload false 32 [2]), none] := by decide
 
+/-- **Lists of payloads: results, delivery, order, exactly once.**  `d1.send([b₁, …, bₙ], ask_no_ack,
+    force_retry, send_only)` (list / tuple input; every `force_retry : Nat`, buffer kinds and flags)
+    over a link satisfying the invariant `LinkInv` of `C01_order` (compatible listening receiver
+    `j` on pipe `p`, undisturbed air, the receiver holding the unread payloads `pend`), with room for
+    all of them at the receiver (`pend.length + n ≤ 3`: nobody can read in the middle of one call),
+    every payload legal in dynamic mode, and working acknowledgements (`AcksWork`: if the
+    transmitter waits for acknowledgements at all, it can hear them and the receiver auto-acks pipe
+    `p`):
+    * the call returns one result per payload with the caller's buffers, none of them `False`; all of
+      them are `True` when `send_only` is on or the transmitter does not take ACK payloads (otherwise
+      a result may be the peer's ACK payload, per C02);
+    * the receiver's RX FIFO has gained exactly `b₁ … bₙ`, padded / truncated per the mode, in order,
+      on pipe `p`, behind what was unread;
+    * the link invariant holds again, so `C01_order` applies to whatever follows; in particular
+    * the receiver object's next `pend.length + n + 1` `read()`s return the old unread payloads, then
+      `b₁ … bₙ` (expected form), each once, in order, then `None`. -/
+theorem C01_send_list (R : Radio) (j p : Nat) (dyn : Bool) (L : Link) (pend : List Bytes)
+    (h : LinkInv R j p dyn L pend) (bufs : List (Bool × Bytes)) (a : Bool) (n : Nat) (so : Bool)
+    (hlen : pend.length + bufs.length ≤ 3) (hbufs : ∀ mb ∈ bufs, dyn = true → mb.2 ≠ [] ∧ mb.2.length ≤ 32)
+    (hack : AcksWork R (L.w.radio j) p) :
+    (∃ rs, (exec (Rf24.sendList bufs a (n : Int) so) L.tx).1 = .ok rs ∧
+      rs.map (·.2) = bufs.map (·.2) ∧ (∀ r ∈ rs, r.1 ≠ .bool false) ∧
+      ((so = true ∨ R.ackPayRx = false) → rs.map (·.1) = List.replicate bufs.length (.bool true))) ∧
+    ((L.sendList bufs a n so).w.radio j).rxFifo =
+      (L.w.radio j).rxFifo ++ bufs.map (fun mb : Bool × Bytes => (⟨p, expectedPayload dyn (L.d1.plLen.getD 0 0) mb.2⟩ : RxEntry)) ∧
+    LinkInv R j p dyn (L.sendList bufs a n so) (pend ++ bufs.map fun mb => expectedPayload dyn (L.d1.plLen.getD 0 0) mb.2) ∧
+    ((L.sendList bufs a n so).run (List.replicate (pend.length + bufs.length + 1) .read)).2 =
+      ((pend ++ bufs.map fun mb : Bool × Bytes => expectedPayload dyn (L.d1.plLen.getD 0 0) mb.2).map some ++ [none]).map .ok := by
+  obtain ⟨rs, r1, r2, r3, r4, hinv⟩ := link_sendList R j p dyn L pend h bufs a n so hlen hbufs hack
+  refine ⟨⟨rs, r1, r2, r3, fun hc => ?_⟩, ?_, hinv, ?_⟩
+  · rw [List.eq_replicate_iff]
+    refine ⟨?_, ?_⟩
+    · have := congrArg List.length r2
+      simpa using this
+    · intro b hb
+      obtain ⟨r, hr, rfl⟩ := List.mem_map.1 hb
+      exact r4 hc r hr
+  · rw [hinv.rxq, h.rxq, List.map_append, List.map_map]
+    rfl
+  · have hq : (pend ++ bufs.map fun mb : Bool × Bytes => expectedPayload dyn (L.d1.plLen.getD 0 0) mb.2).length = pend.length + bufs.length := by
+      simp
+    rw [← hq]
+    exact link_order R j p dyn _ _ _ hinv _ (orderSpec_reads dyn _ _)
+
+example : AcksWork { config := 0x0E } (exLink.w.radio 1) 0 := fun _ => ⟨by decide, by decide⟩
+
+example : ([] : List Bytes).length + [(false, [1]), (true, [2, 2]), (false, [3, 3, 3])].length ≤ 3 ∧
+    ∀ mb ∈ [(false, [1]), (true, [2, 2]), (false, ([3, 3, 3] : Bytes))], false = true → mb.2 ≠ [] ∧ mb.2.length ≤ 32 :=
+  ⟨by decide, fun _ _ hd => absurd hd (by decide)⟩
+
+example : ((exLink.sendList [(false, [1]), (true, [2, 2]), (false, [3, 3, 3])] false 0 false).w.radio 1).rxFifo =
+    [⟨0, expectedPayload false 32 [1]⟩, ⟨0, expectedPayload false 32 [2, 2]⟩, ⟨0, expectedPayload false 32 [3, 3, 3]⟩] := by
+  decide +kernel
+
+/-- **Streaming: several `write(…, write_only=True)`, then CE high — all delivered, in order, exactly
+    once.**  The caller's program `streamProg ws` is: for each `(kind, ask_no_ack, buf)` of `ws` one
+    `d1.write(buf, ask_no_ack, write_only=True)`; then `d1.ce = True`; then one `d1.update()` (with
+    the jump semantics of the environment model the radio has finished all its cycles when the next
+    SPI transaction returns, so one poll suffices; `fifo(True, True)` is then true).
+    Over a link satisfying `LinkInv` (as in `C01_order`), the transmitter with CE low and an empty TX
+    FIFO, `1 ≤ k ≤ 3` payloads with room for all of them at the receiver (`pend.length + k ≤ 3`),
+    legal payloads, undisturbed air, working acknowledgements (`AcksWork`):
+    * every `write()` returns `True` with the caller's buffer;
+    * afterwards the TX FIFO is empty, the cached status byte shows TX_DS and not MAX_RT;
+    * the receiver's RX FIFO has gained exactly the `k` expected payloads, in order, on pipe `p`;
+    * `LinkInv` holds again, and the receiver object's next `pend.length + k + 1` `read()`s return
+      the old unread payloads, then the `k` payloads, each once, in order, then `None`;
+    * the caller's loop condition `fifo(True, True)` ("TX FIFO empty") is then true.
+    (All of it for every `k ≤ 3` at once — the TX FIFO has three levels, a fourth `write()` returns
+    `False`; the variant "last `write()` with `write_only=False` instead of `ce = True`" is
+    `C01_stream_last`.) -/
+theorem C01_stream (R : Radio) (j p : Nat) (dyn : Bool) (L : Link) (pend : List Bytes)
+    (h : LinkInv R j p dyn L pend) (ws : List (Bool × Bool × Bytes)) (hne : ws ≠ [])
+    (hce : L.tx.rad.ce = false) (htx : L.tx.rad.txFifo = [])
+    (hlen : pend.length + ws.length ≤ 3) (hbufs : ∀ x ∈ ws, dyn = true → x.2.2 ≠ [] ∧ x.2.2.length ≤ 32)
+    (hack : AcksWork R (L.w.radio j) p) :
+    (exec (streamProg ws) L.tx).1 = .ok (ws.map fun x => (true, x.2.2)) ∧
+    (exec (streamProg ws) L.tx).2.rad.txFifo = [] ∧
+    (exec (streamProg ws) L.tx).2.d.status &&& 0x20 ≠ 0 ∧ (exec (streamProg ws) L.tx).2.d.status &&& 0x10 = 0 ∧
+    ((L.stream ws).w.radio j).rxFifo =
+      (L.w.radio j).rxFifo ++ ws.map (fun x : Bool × Bool × Bytes => (⟨p, expectedPayload dyn (L.d1.plLen.getD 0 0) x.2.2⟩ : RxEntry)) ∧
+    LinkInv R j p dyn (L.stream ws) (pend ++ ws.map fun x => expectedPayload dyn (L.d1.plLen.getD 0 0) x.2.2) ∧
+    ((L.stream ws).run (List.replicate (pend.length + ws.length + 1) .read)).2 =
+      ((pend ++ ws.map fun x : Bool × Bool × Bytes => expectedPayload dyn (L.d1.plLen.getD 0 0) x.2.2).map some ++ [none]).map .ok ∧
+    (exec (fifo true (some true)) (exec (streamProg ws) L.tx).2).1 = .ok 1 := by
+  obtain ⟨r1, r2, r3, r4, hinv⟩ := link_stream R j p dyn L pend h ws hne hce htx hlen hbufs hack
+  refine ⟨r1, r2, r3, r4, ?_, hinv, ?_, ?_⟩
+  rotate_left 2
+  · rw [exec_fifo]
+    unfold fifoOf fifoAnswer
+    simp [r2]
+  · rw [hinv.rxq, h.rxq, List.map_append, List.map_map]
+    rfl
+  · have hq : (pend ++ ws.map fun x : Bool × Bool × Bytes => expectedPayload dyn (L.d1.plLen.getD 0 0) x.2.2).length =
+        pend.length + ws.length := by simp
+    rw [← hq]
+    exact link_order R j p dyn _ _ _ hinv _ (orderSpec_reads dyn _ _)
+
+example : exLink.tx.rad.ce = false ∧ exLink.tx.rad.txFifo = [] ∧
+    ([] : List Bytes).length + [(false, false, [1]), (true, true, [2, 2]), (false, false, ([3, 3, 3] : Bytes))].length ≤ 3 :=
+  ⟨rfl, rfl, by decide⟩
+
+example : ((exLink.stream [(false, false, [1]), (true, true, [2, 2]), (false, false, [3, 3, 3])]).w.radio 1).rxFifo =
+    [⟨0, expectedPayload false 32 [1]⟩, ⟨0, expectedPayload false 32 [2, 2]⟩, ⟨0, expectedPayload false 32 [3, 3, 3]⟩] := by
+  decide +kernel
+
+/-- a second example link, in DYNAMIC payload mode (EN_DPL + EN_DYN_ACK on both radios, DYNPD all pipes): the
+    hypotheses of `C01_send_list` / `C01_stream` with non-vacuous payload-legality, `ask_no_ack` honoured for one payload -/
+def exDynState : DrvState :=
+  { d := {},
+    w := { radios := [{ config := 0x0E, feature := 5, dynpd := 0x3F },
+                      { config := 0x0F, ce := true, feature := 5, dynpd := 0x3F }],
+           busyUntil := [0, 0] } }
+def exDynLink : Link := { d1 := exDynState.d, d2 := { rid := 1 }, w := exDynState.w }
+
+example : LinkInv { config := 0x0E, feature := 5, dynpd := 0x3F } 1 0 true exDynLink [] :=
+  { hist := Or.inr ⟨by decide, rfl, by decide, rfl, Or.inl rfl⟩
+    ptx := by decide
+    compat := ⟨by decide, by decide, by decide, rfl, rfl, rfl, rfl, rfl, by decide, by decide, by decide, by decide,
+      by decide, fun h => absurd h (by decide), rfl⟩
+    rid2 := rfl
+    rxq := rfl
+    pendOk := fun b hb => by cases hb
+    pendLen := fun _ b hb => by cases hb
+    nodup := fun _ l hl => by cases hl
+    acks := by
+      intro q hq hqs
+      have : q = 1 := by
+        have : q < 2 := hq
+        have : q ≠ 0 := hqs
+        omega
+      subst this
+      exact ⟨(fun e he => by cases he), (fun d hd => by cases hd)⟩
+    feat := fun _ => by decide
+    shadow := fun hf => absurd hf (by decide) }
+
+example : AcksWork { config := 0x0E, feature := 5, dynpd := 0x3F } (exDynLink.w.radio 1) 0 := fun _ => ⟨by decide, by decide⟩
+
+example : ∀ x ∈ [(false, false, [1]), (true, true, [2, 2]), (false, false, ([3, 3, 3] : Bytes))], true = true → x.2.2 ≠ [] ∧ x.2.2.length ≤ 32 := by
+  decide
+
+example : ((exDynLink.stream [(false, false, [1]), (true, true, [2, 2]), (false, false, [3, 3, 3])]).w.radio 1).rxFifo =
+    [⟨0, [1]⟩, ⟨0, [2, 2]⟩, ⟨0, [3, 3, 3]⟩] := by
+  decide +kernel
+example : ((exDynLink.sendList [(false, [1]), (true, [2, 2]), (false, [3, 3, 3])] true 1 false).w.radio 1).rxFifo =
+    [⟨0, [1]⟩, ⟨0, [2, 2]⟩, ⟨0, [3, 3, 3]⟩] := by
+  decide +kernel
+
+/-- **Streaming, the variant with a final normal `write()`.**  `streamProgLast ws last`: the
+    `write(…, write_only=True)` of `ws`, then `write(last)` with `write_only=False` (which raises CE
+    itself), then one `update()`.  Under the hypotheses of `C01_stream` for the `k + 1` payloads
+    `ws ++ [last]` it is THE SAME computation as `streamProg (ws ++ [last])` (same results, same final
+    state of driver, radios and air) — so every conclusion of `C01_stream` holds for it verbatim. -/
+theorem C01_stream_last (R : Radio) (j p : Nat) (dyn : Bool) (L : Link) (pend : List Bytes)
+    (h : LinkInv R j p dyn L pend) (ws : List (Bool × Bool × Bytes)) (last : Bool × Bool × Bytes)
+    (hce : L.tx.rad.ce = false) (htx : L.tx.rad.txFifo = [])
+    (hlen : pend.length + (ws ++ [last]).length ≤ 3)
+    (hbufs : ∀ x ∈ ws ++ [last], dyn = true → x.2.2 ≠ [] ∧ x.2.2.length ≤ 32) :
+    exec (streamProgLast ws last) L.tx = exec (streamProg (ws ++ [last])) L.tx :=
+  link_streamLast_eq R j p dyn L pend h ws last hce htx hlen hbufs
+
+example : ([] : List Bytes).length + ([(false, false, [1]), (true, true, ([2, 2] : Bytes))] ++ [(false, false, [3, 3, 3])]).length ≤ 3 := by
+  decide
+
+example : ((exec (streamProgLast [(false, false, [1]), (true, true, [2, 2])] (false, false, [3, 3, 3])) exLink.tx).2.w.radio 1).rxFifo =
+    [⟨0, expectedPayload false 32 [1]⟩, ⟨0, expectedPayload false 32 [2, 2]⟩, ⟨0, expectedPayload false 32 [3, 3, 3]⟩] := by
+  decide +kernel
+
 /-- **Overflow is not silent.**  The receiver already holds 3 unread payloads: a 4th `send()` (with
     auto-ack, in a world of just these two radios) returns `False` — for every `force_retry` — and
     the receiver is exactly as before: nothing is stored, nothing is dropped. -/
@@ -295,6 +480,21 @@ theorem C01_overflow (s : DrvState) (buf : Bytes) (m askNoAck : Bool) (n : Nat) 
     rfl
   · rw [send_receiver s buf m askNoAck n sendOnly h henv hc.faults j hc.lt hc.ne, hrecv]
 
+/-- the example world with the receiver's RX FIFO full -/
+def exFull : DrvState :=
+  { d := { dynPl := 0 },
+    w := { radios := [{ config := 0x0E },
+                      { config := 0x0F, ce := true, rxPw := [32, 0, 0, 0, 0, 0], rxFifo := [⟨0, [1]⟩, ⟨0, [2]⟩, ⟨0, [3]⟩] }],
+           busyUntil := [0, 0] } }
+
+example : SendPre exFull [4] false ∧ AckEnv exFull.rad (exFull.sendPacket false [4]) exFull ∧ Compatible exFull 1 0 false ∧
+    exFull.w.radios.length = 2 ∧ exFull.sendAwaits false [4] = true ∧ (exFull.w.radio 1).rxFifo.length ≥ 3 ∧
+    (exFull.w.radio 1).isDup (exFull.sendPacket false [4]) = false :=
+  ⟨⟨by decide, by decide, by decide, Or.inr rfl, fun _ => Or.inl rfl, fun h => absurd h (by decide), fun _ => by decide⟩,
+   ackEnv_of_eval _ _ _ (fun h => absurd h (by decide)) (by decide +kernel),
+   ⟨by decide, by decide, by decide, rfl, rfl, rfl, rfl, rfl, by decide, by decide, by decide, by decide, by decide,
+    fun _ => by decide, rfl⟩,
+   rfl, by decide, by decide, by decide⟩
 /-- **Rejection.**  Dynamic payloads on, a payload of 0 or more than 32 bytes: `write()` raises
     `ValueError` and the state — driver object, every radio, the air log, the clock — is **identical**
     (no SPI transaction at all); `send()` raises `ValueError` after its preamble (CE low and the
